@@ -314,7 +314,12 @@ def native_roundtrip() -> tuple[bool, str]:
             if back != (host, port):
                 return True, (f"TargetURI.from_parts('tcp-lines', {host!r}, {port}, ...) == "
                               f"{u.raw!r} parses back to {back}")
-    return False, "hosts x ports round trip"
+    u = TargetURI.from_parts("isotp", "vcan0", None, {"tx_padding": 0, "is_fd": False, "n": 7})
+    flat = u.qs_flat
+    if flat != {"tx_padding": "0", "is_fd": "False", "n": "7"}:
+        return True, (f"TargetURI.from_parts(..., {{'tx_padding': 0, 'is_fd': False, 'n': 7}}) == "
+                      f"{u.raw!r}: parameters parse back as {flat}")
+    return False, "hosts x ports x parameters round trip"
 
 
 def native_replay(unit: str, obligation: str, model: dict) -> tuple[bool, str]:
